@@ -671,6 +671,11 @@ class io_epoll_context::read_sender {
       if (static_cast<completion_base&>(self).enqueued_.load() == 0) {
         // Avoid instantiating set_done() if we're not going to call it.
         if constexpr (is_stop_ever_possible) {
+          if ((self.state_.load(std::memory_order_relaxed) & io_mask) == 0) {
+            // The completion handler never ran: the stop callback is still
+            // alive and may still be executing on the requesting thread.
+            self.stopCallback_.destruct();
+          }
           unifex::set_done(std::move(self.receiver_));
         } else {
           // This should never be called if stop is not possible.
@@ -916,6 +921,11 @@ class io_epoll_context::write_sender {
       if (static_cast<completion_base&>(self).enqueued_.load() == 0) {
         // Avoid instantiating set_done() if we're not going to call it.
         if constexpr (is_stop_ever_possible) {
+          if ((self.state_.load(std::memory_order_relaxed) & io_mask) == 0) {
+            // The completion handler never ran: the stop callback is still
+            // alive and may still be executing on the requesting thread.
+            self.stopCallback_.destruct();
+          }
           unifex::set_done(std::move(self.receiver_));
         } else {
           // This should never be called if stop is not possible.
